@@ -576,6 +576,33 @@ func checkOne(p protos.P, s wire.Spec, r *core.Rand) *failure {
 			return &failure{"desync", pol + ": bytes left over or no clean EOF after the only frame"}
 		}
 	}
+	// raw protocol without a filter pipe: the frame the SUT wrote is read by the independent reference decoder of the
+	// documented layout, and the frame the reference encoder builds is read by the SUT - a slip shared by the SUT's
+	// packer and parser (or present in only one of them) cannot cancel out
+	if p.Name == "raw" && len(s.Pipe) == 0 {
+		core.Add("reference_codec_comparisons", 1)
+		refs, rest, derr := wire.RawDecode(pk.frames[0])
+		switch {
+		case derr != nil:
+			return &failure{"ref-decode-error", "the frame written by Pack is not a frame of the documented layout: " + derr.Error()}
+		case len(refs) != 1 || len(rest) != 0:
+			return &failure{"ref-decode-error", fmt.Sprintf("the bytes written by Pack hold %d frames of the documented layout and %d further bytes", len(refs), len(rest))}
+		}
+		if f := compare(e, refs[0], p); f != nil {
+			f.symptom = "ref-decode-" + f.symptom
+			return f
+		}
+		if rb, ok := wire.RawEncode(s); ok {
+			out, _, uerr, _ := unpackStream(p, rb, 1, wire.Policy("whole", r))
+			if uerr != nil {
+				return &failure{"ref-encode-unpack-error", uerr.Error()}
+			}
+			if f := compare(e, out[0], p); f != nil {
+				f.symptom = "ref-encode-" + f.symptom
+				return f
+			}
+		}
+	}
 	return nil
 }
 
